@@ -194,6 +194,34 @@ ZerosOK(c) ==
     /\ (c.z = "allmodes" => MustRejectPerMode(c) /\ MustRejectStacked(c))
     /\ (c.z = "onemode" => MustRejectPerMode(c) /\ (MustRejectStacked(c) = (c.M = 1)))
 
+\* ---- near ties.  The columns of the reference set are  N e_1 + e_(k+1)  (k < R)  and  N e_1:  pairwise at an angle of
+\* ~1/N, NOT collinear (exact: a 2 x 2 minor equals 1).  The second set is a column-permuted, rescaled (signs, powers of
+\* two) copy.  By the definition the optimum is attained ONLY by the recovering permutation (each matched pair has cosine
+\* exactly 1, every other pair strictly less), however small the gap (~1/N^2 = 1e-10) to the competing matchings.
+\* dup = TRUE: the last two columns of the reference are exact duplicates -- an exact tie: every permutation that maps
+\* collinear columns onto each other is optimal, nothing else is.
+TieN == 100000
+TieCol(R, k, dup) == [i \in 1..(R + 1) |-> IF i = 1 THEN TieN
+                                             ELSE IF k < R /\ i = k + 1 THEN 1
+                                             ELSE IF dup /\ k = R /\ i = R THEN 1 ELSE 0]     \* dup: column R = column R-1
+TieScale(sc, j) == IF sc = 0 THEN 1 ELSE <<-2, 4, -1, 8, 2, -4>>[((j - 1) % 6) + 1]
+TieA(R, M, dup) == [m \in 1..M |-> IF m = 1 THEN FromCols([k \in 1..R |-> TieCol(R, k, dup)]) ELSE FacA(R, M, 0)[m]]
+TieB(R, M, dup, p, sc) == [m \in 1..M |-> IF m = 1 THEN FromCols([j \in 1..R |-> ScaleVec(TieScale(sc, j), TieCol(R, p[j], dup))])
+                                            ELSE FacB(R, M, 0, p, 0)[m]]
+TieCfg(R, M, dup, p, sc) == [kind |-> "ties", R |-> R, M |-> M, dup |-> dup, p |-> p, sc |-> sc,
+                             A |-> TieA(R, M, dup), B |-> TieB(R, M, dup, p, sc), w |-> WeightsB(R)]
+ValidTies(c) == /\ c.R \in 2..4 /\ c.M \in 1..2 /\ c.dup \in BOOLEAN /\ c.sc \in {0, 1}
+                /\ DOMAIN c.p = 1..c.R /\ IsPerm(c.p, c.R) /\ c = TieCfg(c.R, c.M, c.dup, c.p, c.sc)
+\* collinearity without squaring N: all 2 x 2 minors vanish
+CollinearMinors(u, v) == \A i, j \in 1..Len(u) : i < j => u[i] * v[j] = u[j] * v[i]
+\* a matching is optimal (value exactly 1) iff it pairs collinear columns in every mode
+TieOptimal(c, pi) == \A m \in 1..c.M : \A i \in 1..c.R : CollinearMinors(Col(c.A[m], i), Col(c.B[m], pi[i]))
+TiesOK(c) ==
+    /\ TieOptimal(c, InvPerm(c.p))
+    \* the duplicate is in mode 1 only: with a second mode the other mode separates the two components again
+    /\ (~(c.dup /\ c.M = 1) => \A pi \in Permutations(1..c.R) : TieOptimal(c, pi) = (pi = InvPerm(c.p)))      \* unique
+    /\ (c.dup /\ c.M = 1 => Cardinality({pi \in Permutations(1..c.R) : TieOptimal(c, pi)}) = 2)               \* the exact tie
+
 \* theorems about the specification on one exact configuration
 ExTop(c) == c.R * Pow(L, c.M)
 ExB0(c) == FacB(c.R, c.M, c.b, IdPerm(c.R), 0)          \* the second set before permutation and rescaling
@@ -258,11 +286,14 @@ NormAxis(shape, ax) == IF ax = AxNone THEN AxNone ELSE IF ax < 0 THEN ax + Len(s
 ShiftInvariant(op) == op \in {"MSE", "RMSE", "covariance", "variance", "std", "correlation"}
 Offsets == {<<20, "f64">>, <<30, "f64">>, <<40, "f64">>, <<10, "f32">>}
 OffShapes == {<<4>>, <<3, 4>>, <<2, 3, 2>>}
+\* memory layout of BOTH arrays handed to a metric: C order, Fortran order, a non-contiguous view, read-only arrays
+MetricLayouts == {"C", "F", "strided", "ro"}
 ValidMetric(c) ==
     /\ c.op \in MetricOps /\ c.shape \in MetricShapes /\ c.k \in 1..MetricDraws
-    /\ (c.axis = AxNone \/ (c.op # "R2" /\ c.axis \in (-1)..(Len(c.shape) - 1)))
+    /\ (c.axis = AxNone \/ (c.op # "R2" /\ c.axis \in (-Len(c.shape))..(Len(c.shape) - 1)))       \* every negative spelling too
     /\ \/ c.off = 0 /\ c.dt = "f64"
        \/ ShiftInvariant(c.op) /\ <<c.off, c.dt>> \in Offsets /\ c.shape \in OffShapes
+    /\ c.lay \in MetricLayouts /\ (c.lay # "C" => c.off = 0 /\ c.shape \in OffShapes)
 DropAt(s, k) == SubSeq(s, 1, k - 1) \o SubSeq(s, k + 1, Len(s))
 InsAt(s, k, x) == SubSeq(s, 1, k - 1) \o <<x>> \o SubSeq(s, k, Len(s))
 MetricOutShape(shape, ax) == IF ax = AxNone THEN <<>> ELSE DropAt(shape, ax + 1)
@@ -325,7 +356,7 @@ LevExactOK(c) ==
     /\ \A d \in 1..3 : \A i \in 1..3 : (OrthFams[c.f][d][i] * OrthFams[c.f][d][i] * L) % Dot(OrthFams[c.f][d], OrthFams[c.f][d]) = 0
     /\ SumSeq([i \in 1..(3 + c.pad) |-> LevNum(c.f, c.idxs, c.pad, i)]) = L * LevRank(c.idxs)    \* sums to one
     /\ \A i \in 1..(3 + c.pad) : LevNum(c.f, c.idxs, c.pad, i) >= 0
-LevFlavours == {"normal", "lowrank", "f32", "int"}
+LevFlavours == {"normal", "lowrank", "f32", "int", "F", "strided", "ro"}      \* the last three: memory layouts of a random matrix
 ValidLev(c) == c.rows \in 2..9 /\ c.cols \in 1..4 /\ c.flavour \in LevFlavours /\ c.k \in 1..LevDraws
 
 -----------------------------------------------------------------------------
@@ -342,6 +373,7 @@ Seeds == {[kind |-> "seed", fam |-> "exact", R |-> r, M |-> m, b |-> b, s |-> s,
          \cup {[kind |-> "seed", fam |-> "metricdata", x |-> x] : x \in SeqsOver((-1)..1, 3)}
          \cup {[kind |-> "seed", fam |-> "lev"]}
          \cup {[kind |-> "seed", fam |-> "zeros", R |-> r] : r \in 1..3}
+         \cup {[kind |-> "seed", fam |-> "ties", R |-> r, M |-> m] : r \in 2..4, m \in 1..2}
 CfgsOf(sd) ==
     CASE sd.fam = "exact" ->
             {ExactCfg(sd.R, sd.M, 0, sd.b, p, sd.s) : p \in {pp \in ExactPerms(sd.R) : pp[1] = sd.f}}
@@ -349,10 +381,10 @@ CfgsOf(sd) ==
             {[kind |-> "generic", R |-> sd.R, M |-> m, prof |-> pr, rows |-> SubSeq(RowProfiles[pr], 1, m), flavour |-> fl, k |-> k] :
                 m \in 1..3, pr \in 1..Len(RowProfiles), fl \in GenFlavours, k \in 1..GenDraws}
       [] sd.fam = "metric" ->
-            {c \in UNION {{[kind |-> "metric", op |-> sd.op, shape |-> sh, axis |-> ax, off |-> o[1], dt |-> o[2], k |-> k] :
-                              ax \in {AxNone} \cup ((-1)..(Len(sh) - 1)), k \in 1..MetricDraws,
+            {c \in UNION {{[kind |-> "metric", op |-> sd.op, shape |-> sh, axis |-> ax, off |-> o[1], dt |-> o[2], lay |-> ly, k |-> k] :
+                              ax \in {AxNone} \cup ((-Len(sh))..(Len(sh) - 1)), k \in 1..MetricDraws, ly \in MetricLayouts,
                               o \in {<<0, "f64">>} \cup Offsets} : sh \in MetricShapes}
-                : ValidMetric(c) /\ (c.off # 0 => c.k = 1)}
+                : ValidMetric(c) /\ (c.off # 0 => c.k = 1) /\ (c.lay # "C" => c.k = 1)}
       [] sd.fam = "lev" ->
             {[kind |-> "lev", rows |-> r, cols |-> cl, flavour |-> fl, k |-> k] :
                 r \in {2, 3, 5, 9}, cl \in 1..4, fl \in LevFlavours, k \in 1..LevDraws}
@@ -360,6 +392,8 @@ CfgsOf(sd) ==
             {[kind |-> "levexact", f |-> sd.f, idxs |-> ix, pad |-> sd.pad, A |-> LevMatrix(sd.f, ix, sd.pad)] :
                 ix \in {x \in UNION {SeqsOver(0..3, n) : n \in 1..LevMaxCols} :
                             LevRank(x) >= 1 /\ (0 \in SeqRange(x) => Len(x) < LevMaxCols)}}
+      [] sd.fam = "ties" ->
+            {TieCfg(sd.R, sd.M, d, p, sc) : d \in BOOLEAN, sc \in {0, 1}, p \in Permutations(1..sd.R)}
       [] sd.fam = "zeros" ->
             {ZeroCfg(sd.R, m, b, p, z) : m \in 1..3, b \in {0, 1}, z \in ZeroKinds,
                                          p \in {IdPerm(sd.R), [j \in 1..sd.R |-> (j % sd.R) + 1]}}
@@ -376,6 +410,7 @@ SpecOK ==
       [] cfg.kind = "lev"        -> ValidLev(cfg)
       [] cfg.kind = "levexact"   -> ValidLevExact(cfg) /\ LevExactOK(cfg)
       [] cfg.kind = "zeros"      -> ValidZeros(cfg) /\ ZerosOK(cfg)
+      [] cfg.kind = "ties"       -> ValidTies(cfg) /\ TiesOK(cfg)
       [] cfg.kind = "metricdata" -> MetricDataOK(cfg.x, cfg.y)
       [] OTHER -> TRUE
 =============================================================================
